@@ -7,9 +7,10 @@
   build_index_from_tree).  Every literal comes from Gen/PathSafe.lean, regenerated from /repo on every run.
 -/
 import DulwichModel.Lemmas.PathSafe
+import DulwichModel.Lemmas.Checkout
 
 namespace Dulwich.Props.C17
-open Dulwich Dulwich.PathSafe Dulwich.Gen.PathSafe
+open Dulwich Dulwich.PathSafe Dulwich.Checkout Dulwich.Gen.PathSafe
 
 /-! ## 1. The default validator (protectNTFS and protectHFS both off) -/
 
@@ -342,5 +343,160 @@ theorem default_config_refuses_ntfs_family (fold : List Nat → List Nat) (e : B
     (select protectNtfsDefault false).run fold e = false := by
   simp only [protectNtfsDefault, select, Validator.run]
   exact ntfs_dotgit_complete e h
+
+/-! ## 7. `build_index_from_tree` on a file system with symlinks: cache soundness and confinement -/
+
+section checkout
+variable (fold : List Nat → List Nat)
+
+theorem validated_clean (hf : FoldAsciiOk fold) (v : Validator) (p : Bytes)
+    (h : validatePath (v.run fold) p = true) : Clean (splitOn pathSep p) :=
+  fun c hc => let hs := validate_path_lexical fold hf v p h c hc; ⟨hs.1, hs.2.1, hs.2.2.1⟩
+
+/-- **`safe_prefix_sound`.**  For EVERY starting file system (any leftovers of earlier checkouts: symlinks
+anywhere, files where directories are expected, …), every work-tree root, every list of entries (any names, any
+order, duplicates allowed — more than a tree can contain) and each of the four validators: whenever the loop of
+`build_index_from_tree` has completed its iterations over `entries` without raising, every prefix of the
+`safe_prefix` cache is a real directory in the CURRENT file system — not merely when it was `lstat`ed.  Applied
+to each initial segment of a tree's entry list this says the cache is sound at the start of every iteration, which
+is what lets `verify_leading_dirs` skip the cached components. -/
+theorem safe_prefix_sound (hf : FoldAsciiOk fold) (v : Validator) (root : PPath) (entries : List Entry) (fs : FS)
+    (h : (buildIndexFromTree (v.run fold) root entries fs).2 = none) :
+    let st := (buildIndexFromTree (v.run fold) root entries fs).1
+    ∀ i, 1 ≤ i → i ≤ st.safe.length → st.fs (root ++ st.safe.take i) = some .dir := by
+  have := (runEntries_ok (root := root) (v.run fold) (validated_clean fold hf v) entries
+    { fs := fs, log := [], safe := [] } (fun i h1 h2 => by simp at h2; omega)).2 h
+  exact this
+
+/-- a physical path strictly below the work-tree root whose first component under the root is not `.git` (in any
+ASCII case), nor empty, `.` or `..` -/
+def Confined (root : PPath) (p : PPath) : Prop :=
+  ∃ c rest, p = root ++ c :: rest ∧ lower c ≠ [46, 103, 105, 116] ∧ c ≠ [] ∧ c ≠ [46] ∧ c ≠ [46, 46]
+
+/-- **`confined`** (for `build_index_from_tree`: clone, `reset_index`, the write loop shared with stash pop).
+For EVERY starting file system — symlinks to absolute, parent or sibling targets anywhere, left by any sequence of
+earlier checkouts —, every root, every entry list (any bytes as names, any modes, any order) and each of the four
+validators: every mutating system call the run makes (mkdir, unlink, symlink, open-for-write, chmod) acts, AFTER
+the kernel's symlink resolution, on a physical path strictly below the work-tree root and outside `root/.git`;
+moreover that path is a lexical prefix of a validated entry path.  No hypothesis on the file system is needed. -/
+theorem confined (hf : FoldAsciiOk fold) (v : Validator) (root : PPath) (entries : List Entry) (fs : FS) :
+    ∀ m ∈ (buildIndexFromTree (v.run fold) root entries fs).1.log, Confined root m.target := by
+  intro m hm
+  have := (runEntries_ok (root := root) (v.run fold) (validated_clean fold hf v) entries
+    { fs := fs, log := [], safe := [] } (fun i h1 h2 => by simp at h2; omega)).1 m hm
+  rcases this with h | ⟨e, _, hval, i, hi1, hi2, ht⟩
+  · cases h
+  · obtain ⟨_, _, c, rest, hsp, hc⟩ := lexical_confined fold hf v e.path hval root
+    have hs := validate_path_lexical fold hf v e.path hval c (by rw [hsp]; exact List.mem_cons_self)
+    refine ⟨c, rest.take (i - 1), ?_, hc, hs.1, hs.2.1, hs.2.2.1⟩
+    rw [ht, hsp]
+    cases i with
+    | zero => omega
+    | succ i => simp
+
+/-- what each logged call is, in terms of the tree: a lexical prefix of the path of an accepted entry -/
+theorem confined_lexical (hf : FoldAsciiOk fold) (v : Validator) (root : PPath) (entries : List Entry) (fs : FS) :
+    ∀ m ∈ (buildIndexFromTree (v.run fold) root entries fs).1.log, ∃ e ∈ entries,
+      validatePath (v.run fold) e.path = true ∧ ∃ i, 1 ≤ i ∧ i ≤ (splitOn pathSep e.path).length ∧
+        m.target = root ++ (splitOn pathSep e.path).take i := by
+  intro m hm
+  have := (runEntries_ok (root := root) (v.run fold) (validated_clean fold hf v) entries
+    { fs := fs, log := [], safe := [] } (fun i h1 h2 => by simp at h2; omega)).1 m hm
+  rcases this with h | h
+  · cases h
+  · exact h
+
+/-- **`mode_canonical` on the run**: whatever mode bits the entries carry (set-uid, set-gid, sticky, world-writable,
+anything above 16 bits), every `chmod` the run performs carries permission bits without set-id/sticky bits and
+without group/world write permission (for blob entries: exactly 0644 or 0755, by `mode_canonical`).  Holds for any
+validator and any file system. -/
+theorem chmod_canonical (v : Bytes → Bool) (root : PPath) (entries : List Entry) (fs : FS) (p : PPath) (md : Nat)
+    (h : Mut.chmod p md ∈ (buildIndexFromTree v root entries fs).1.log) : md &&& 0o7022 = 0 := by
+  have := runEntries_good v root entries { fs := fs, log := [], safe := [] } (fun m hm => by cases hm) _ h
+  obtain ⟨mode, rfl⟩ := this
+  rcases mode_canonical mode with h | h | h | h | h <;> rw [h] <;> decide
+
+end checkout
+
+/-- Non-vacuity / regression shapes on a concrete file system (`w` is the work tree, `o` lies outside):
+`w/d -> ../o` left by an earlier checkout.  (1) a tree with `d/x` is refused before anything is written
+(CVE-2021-21300 shape); (2) a tree with the regular file `d` REPLACES the link (unlink, then write, then chmod 0644)
+instead of writing through it; (3) `a/b` creates `w/a` and writes `w/a/b`, the second entry `a/c` reuses the cache. -/
+def exFs : FS := fun q =>
+  if q = [[119]] then some .dir                           -- w
+  else if q = [[111]] then some .dir                      -- o
+  else if q = [[111], [120]] then some (.file [1] 0o644)  -- o/x
+  else if q = [[119], [100]] then some (.link [46, 46, 47, 111])  -- w/d -> ../o
+  else none
+
+example : (buildIndexFromTree validateNtfs [[119]] [⟨[100, 47, 120], 0o100644, [7]⟩] exFs).2 = some .invalidPath ∧
+    (buildIndexFromTree validateNtfs [[119]] [⟨[100, 47, 120], 0o100644, [7]⟩] exFs).1.log = [] := by decide
+
+example : (buildIndexFromTree validateNtfs [[119]] [⟨[100], 0o104755, [7]⟩] exFs).1.log =
+    [.unlink [[119], [100]], .write [[119], [100]], .chmod [[119], [100]] 0o755] ∧
+    (buildIndexFromTree validateNtfs [[119]] [⟨[100], 0o104755, [7]⟩] exFs).1.fs [[111], [120]] = some (.file [1] 0o644) := by
+  decide
+
+example : (buildIndexFromTree validateNtfs [[119]] [⟨[97, 47, 98], 0o100644, [7]⟩, ⟨[97, 47, 99], 0o120000, [46, 46]⟩] exFs).1.log =
+    [.mkdir [[119], [97]], .write [[119], [97], [98]], .chmod [[119], [97], [98]] 0o644,
+     .symlink [[119], [97], [99]] [46, 46]] ∧
+    (buildIndexFromTree validateNtfs [[119]] [⟨[97, 47, 98], 0o100644, [7]⟩, ⟨[97, 47, 99], 0o120000, [46, 46]⟩] exFs).1.safe = [[97]] := by
+  decide
+
+/-! ## 8. The delete phase of `update_working_tree` (finding F-C17-delete-through-symlink) -/
+
+/-- The FULL statement one would like for the delete phase: every unlink it performs is confined, for every file
+system.  It is FALSE for the code as it stands (`delete_phase_counterexample`). -/
+def DeleteConfinedStatement : Prop :=
+  ∀ (root : PPath) (paths : List Bytes) (fs : FS),
+    ∀ m ∈ (deletePhase validateNtfs root paths { fs := fs, log := [], safe := [] }).1.log, Confined root m.target
+
+/-- **Negation witness** (replayed on the real code every run: corpus/C17/f18-*.json).  Work tree `w` with
+`w/d -> ../o` on disk and the old tree listing `d/x`: the delete phase unlinks `o/x`, OUTSIDE the work tree. -/
+theorem delete_phase_counterexample :
+    (deletePhase validateNtfs [[119]] [[100, 47, 120]] { fs := exFs, log := [], safe := [] }).1.log
+      = [.unlink [[111], [120]]] ∧ ¬ Confined [[119]] [[111], [120]] ∧ ¬ DeleteConfinedStatement := by
+  have h1 : (deletePhase validateNtfs [[119]] [[100, 47, 120]] { fs := exFs, log := [], safe := [] }).1.log
+      = [.unlink [[111], [120]]] := by decide
+  have h2 : ¬ Confined [[119]] [[111], [120]] := by
+    rintro ⟨c, rest, h, _⟩
+    simp at h
+  refine ⟨h1, h2, fun hall => h2 ?_⟩
+  have := hall [[119]] [[100, 47, 120]] exFs (.unlink [[111], [120]]) (by rw [h1]; exact List.mem_cons_self)
+  exact this
+
+/-- **`delete_confined_partial`**: what IS true of the delete phase as coded.  Under the hypothesis the proof
+forces — every leading component of the old path is a real directory on disk ("the work tree's directory
+skeleton matches the old tree") — the unlink acts on the lexical path below the root, outside `.git`.  The
+hypothesis is exactly what `verify_leading_dirs` would establish; it fails when the index/HEAD lists `d/x`
+while `d` is a symlink (after a mixed or soft reset, or a stash pop). -/
+theorem delete_confined_partial (fold : List Nat → List Nat) (hf : FoldAsciiOk fold) (v : Validator) (root : PPath)
+    (path : Bytes) (st : St)
+    (hskel : ∀ i, 1 ≤ i → i < (splitOn pathSep path).length → st.fs (root ++ (splitOn pathSep path).take i) = some .dir) :
+    ∀ m ∈ (deleteOld (v.run fold) root path st).1.log, m ∈ st.log ∨ Confined root m.target := by
+  intro m hm
+  by_cases hval : validatePath (v.run fold) path = true
+  · have hcl := validated_clean fold hf v path hval
+    have hne := splitOn_ne_nil pathSep path
+    obtain ⟨lead, last, hsplit⟩ : ∃ lead last, splitOn pathSep path = lead ++ [last] :=
+      ⟨_, _, (List.dropLast_concat_getLast hne).symm⟩
+    have hd : DirChain st.fs root lead lead.length := by
+      intro i h1 h2
+      have := hskel i h1 (by rw [hsplit]; simp; omega)
+      rwa [hsplit, List.take_append_of_le_length h2] at this
+    have hE := deleteOld_ext (root := root) (v.run fold) path st lead last hsplit (by rw [← hsplit]; exact hcl) hd
+    rcases hE.log m hm with h | ⟨i, hi1, hi2, ht⟩
+    · exact Or.inl h
+    · right
+      obtain ⟨_, _, c, rest, hsp, hc⟩ := lexical_confined fold hf v path hval root
+      have hs := validate_path_lexical fold hf v path hval c (by rw [hsp]; exact List.mem_cons_self)
+      refine ⟨c, rest.take (i - 1), ?_, hc, hs.1, hs.2.1, hs.2.2.1⟩
+      rw [ht, ← hsplit, hsp]
+      cases i with
+      | zero => omega
+      | succ i => simp
+  · have : validatePath (v.run fold) path = false := by simpa using hval
+    simp only [deleteOld, this, if_true] at hm
+    exact Or.inl hm
 
 end Dulwich.Props.C17
